@@ -1,0 +1,237 @@
+//go:build verif
+
+package walstore
+
+// Contracts for gocv (contract-based deductive verification, /verif).
+
+// ---- record decoder: never reads outside the payload, position only moves forward ------------
+// Little-endian words are an uninterpreted function of the eight bytes at a position: the
+// standard library's Uint64 / AppendUint64 are assumed to be inverse to each other (both are
+// described by the same function le64v of the bytes), their bit-level definition is not needed.
+//@ ghost func le64v(b0 byte, b1 byte, b2 byte, b3 byte, b4 byte, b5 byte, b6 byte, b7 byte) uint64
+//@ pure func le64at(s []byte, i int) uint64 = le64v(s[i], s[i+1], s[i+2], s[i+3], s[i+4], s[i+5], s[i+6], s[i+7])
+//@ pure func limbsAt(s []byte, off int, a0 uint64, a1 uint64, a2 uint64, a3 uint64) bool = le64at(s, off) == a0 && le64at(s, off + 8) == a1 && le64at(s, off + 16) == a2 && le64at(s, off + 24) == a3
+//@ extern func encoding/binary.(littleEndian).Uint64
+//@   requires len(b) >= 8
+//@   ensures result == le64at(b, 0)
+//@ extern func encoding/binary.(littleEndian).AppendUint64
+//@   appends b 8
+//@   ensures word: le64at(result, len(b)) == v
+
+//@ pure func wfDecoder(d *walRecordDecoder) bool = 0 <= d.pos && d.pos <= len(d.data)
+
+//@ func (*walRecordDecoder).remaining
+//@   props C14
+//@   arith int
+//@   requires d != nil && wfDecoder(d)
+//@   ensures result == len(d.data) - d.pos && result >= 0
+
+//@ func (*walRecordDecoder).readByte
+//@   props C14
+//@   arith int
+//@   requires d != nil && wfDecoder(d)
+//@   modifies d.pos
+//@   ensures ok: result1 == nil ==> old(d.pos) < len(d.data) && d.pos == old(d.pos) + 1 && result0 == d.data[old(d.pos)]
+//@   ensures eof: result1 != nil ==> old(d.pos) == len(d.data) && d.pos == old(d.pos)
+//@   ensures wf: wfDecoder(d)
+
+//@ func (*walRecordDecoder).readUint64
+//@   props C14
+//@   arith int
+//@   requires d != nil && wfDecoder(d)
+//@   modifies d.pos
+//@   ensures ok: result1 == nil ==> old(d.pos) + 8 <= len(d.data) && d.pos == old(d.pos) + 8 && result0 == le64at(d.data, old(d.pos))
+//@   ensures eof: result1 != nil ==> old(d.pos) + 8 > len(d.data) && d.pos == old(d.pos)
+//@   ensures wf: wfDecoder(d)
+
+//@ func (*walRecordDecoder).readPresenceByte
+//@   props C14
+//@   arith int
+//@   requires d != nil && wfDecoder(d)
+//@   modifies d.pos
+//@   ensures ok: result1 == nil ==> old(d.pos) < len(d.data) && d.pos == old(d.pos) + 1 && (d.data[old(d.pos)] == 0 || d.data[old(d.pos)] == 1) && (result0 <==> d.data[old(d.pos)] == 1)
+//@   ensures complete: old(d.pos) < len(d.data) && (d.data[old(d.pos)] == 0 || d.data[old(d.pos)] == 1) ==> result1 == nil
+//@   ensures wf: wfDecoder(d)
+
+//@ func (*walRecordDecoder).readUint64Array
+//@   props C14
+//@   arith int
+//@   requires d != nil && wfDecoder(d)
+//@   modifies d.pos
+//@   loop 1: invariant bounds: -1 <= rangeindex && rangeindex < 4
+//@   loop 1: invariant progress: wfDecoder(d) && d.pos == old(d.pos) + 8 * (rangeindex + 1)
+//@   loop 1: invariant limbs: forall j int :: 0 <= j && j <= rangeindex ==> value[j] == le64at(d.data, old(d.pos) + 8*j)
+//@   ensures complete: old(d.pos) + 32 <= len(d.data) ==> result1 == nil
+//@   ensures ok: result1 == nil ==> d.pos == old(d.pos) + 32 && d.pos <= len(d.data) && limbsAt(d.data, old(d.pos), result0[0], result0[1], result0[2], result0[3])
+//@   ensures wf: wfDecoder(d)
+
+// ---- batchrepr value length: a fixed-width (5 byte, non-minimal) uvarint that decodes to value --
+// The postcondition is binary.Uvarint's decoding rule written out: four continuation bytes of
+// seven payload bits each, then a final byte without the continuation bit.
+//@ func putFixedUvarint32
+//@   props C14
+//@   arith bv
+//@   requires len(buf) == 5
+//@   modifies buf[0..5]
+//@   loop 1: invariant range: 1 <= i && i <= 4
+//@   loop 1: invariant first: buf[0] == uint8(value) | 0x80
+//@   loop 1: invariant b1: i > 1 ==> buf[1] == uint8(value >> 7) | 0x80
+//@   loop 1: invariant b2: i > 2 ==> buf[2] == uint8(value >> 14) | 0x80
+//@   loop 1: invariant b3: i > 3 ==> buf[3] == uint8(value >> 21) | 0x80
+//@   loop 1: decreases 4 - i
+//@   ensures continuation: buf[0] >= 0x80 && buf[1] >= 0x80 && buf[2] >= 0x80 && buf[3] >= 0x80 && buf[4] < 0x80
+//@   ensures decodes: uint32(buf[0] & 0x7f) | uint32(buf[1] & 0x7f) << 7 | uint32(buf[2] & 0x7f) << 14 | uint32(buf[3] & 0x7f) << 21 | uint32(buf[4]) << 28 == value
+
+// ---- record encoder: byte-exact layout ----------------------------------------------------------
+//@ func appendUint64
+//@   props C14
+//@   arith int
+//@   appends payload 8
+//@   ensures word: le64at(result, len(payload)) == value
+
+//@ func appendInt64
+//@   props C14
+//@   arith int
+//@   appends payload 8
+//@   ensures word: le64at(result, len(payload)) == uint64(value)
+
+//@ func appendUint64Array
+//@   props C14
+//@   arith int
+//@   coretypes
+//@   requires value != nil
+//@   appends payload 32
+//@   loop 1: invariant bounds: 0 <= i && i < 4
+//@   loop 1: invariant length: len(payload) == old(len(payload)) + 8 * i
+//@   loop 1: invariant prefix: forall j int :: 0 <= j && j < old(len(payload)) ==> payload[j] == old(payload[j])
+//@   loop 1: invariant limb0: i > 0 ==> le64at(payload, old(len(payload))) == (*value)[0]
+//@   loop 1: invariant limb1: i > 1 ==> le64at(payload, old(len(payload)) + 8) == (*value)[1]
+//@   loop 1: invariant limb2: i > 2 ==> le64at(payload, old(len(payload)) + 16) == (*value)[2]
+//@   loop 1: invariant inplace: len(payload) <= old(cap(payload)) ==> &payload[0] == old(&payload[0]) && cap(payload) == old(cap(payload))
+//@   loop 1: invariant moved: len(payload) > old(cap(payload)) ==> fresh(payload)
+//@   ensures limbs: limbsAt(result, len(payload), (*value)[0], (*value)[1], (*value)[2], (*value)[3])
+
+// Message header layout: height (8), round (8), sender (4 x 8) = 48 bytes.
+//@ func appendMessageHeader
+//@   props C14
+//@   arith int
+//@   coretypes
+//@   appends payload 48
+//@   ensures height: le64at(result, len(payload)) == uint64(header.Height)
+//@   ensures round: le64at(result, len(payload) + 8) == uint64(header.Round)
+//@   ensures sender: limbsAt(result, len(payload) + 16, header.Sender[0], header.Sender[1], header.Sender[2], header.Sender[3])
+
+// Vote layout: header (48), presence byte, then the 32-byte id when present.
+//@ func appendVotePayload
+//@   props C14
+//@   arith int
+//@   coretypes
+//@   requires vote != nil
+//@   appends payload ite(vote.ID == nil, 49, 81)
+//@   ensures height: le64at(result, len(payload)) == uint64(vote.Height)
+//@   ensures round: le64at(result, len(payload) + 8) == uint64(vote.Round)
+//@   ensures sender: limbsAt(result, len(payload) + 16, vote.Sender[0], vote.Sender[1], vote.Sender[2], vote.Sender[3])
+//@   ensures presence: result[len(payload) + 48] == ite(vote.ID == nil, 0, 1)
+//@   ensures id: vote.ID != nil ==> limbsAt(result, len(payload) + 49, (*vote.ID)[0], (*vote.ID)[1], (*vote.ID)[2], (*vote.ID)[3])
+
+// ---- record decoder, field level ---------------------------------------------------------------
+//@ func (*walRecordDecoder).readHeight
+//@   props C14
+//@   arith int
+//@   requires d != nil && wfDecoder(d)
+//@   modifies d.pos
+//@   ensures ok: result1 == nil ==> old(d.pos) + 8 <= len(d.data) && d.pos == old(d.pos) + 8 && uint64(result0) == le64at(d.data, old(d.pos))
+//@   ensures eof: result1 != nil ==> old(d.pos) + 8 > len(d.data) && d.pos == old(d.pos)
+//@   ensures wf: wfDecoder(d)
+
+//@ func (*walRecordDecoder).readRound
+//@   props C14
+//@   arith int
+//@   requires d != nil && wfDecoder(d)
+//@   modifies d.pos
+//@   ensures ok: result1 == nil ==> old(d.pos) + 8 <= len(d.data) && d.pos == old(d.pos) + 8 && uint64(result0) == le64at(d.data, old(d.pos))
+//@   ensures eof: result1 != nil ==> old(d.pos) + 8 > len(d.data) && d.pos == old(d.pos)
+//@   ensures wf: wfDecoder(d)
+
+//@ func readMessageHeader
+//@   props C14
+//@   arith int
+//@   coretypes
+//@   requires d != nil && wfDecoder(d)
+//@   modifies d.pos
+//@   ensures ok: result1 == nil ==> old(d.pos) + 48 <= len(d.data) && d.pos == old(d.pos) + 48
+//@   ensures height: result1 == nil ==> uint64(result0.Height) == le64at(d.data, old(d.pos))
+//@   ensures round: result1 == nil ==> uint64(result0.Round) == le64at(d.data, old(d.pos) + 8)
+//@   ensures sender: result1 == nil ==> limbsAt(d.data, old(d.pos) + 16, result0.Sender[0], result0.Sender[1], result0.Sender[2], result0.Sender[3])
+//@   ensures complete: old(d.pos) + 48 <= len(d.data) ==> result1 == nil
+//@   ensures wf: wfDecoder(d)
+
+// Vote payload: header, presence byte, optional 32-byte id.
+//@ func decodeVotePayload
+//@   props C14
+//@   arith int
+//@   coretypes
+//@   requires d != nil && wfDecoder(d)
+//@   modifies d.pos
+//@   ensures header: result1 == nil ==> old(d.pos) + 49 <= len(d.data) && uint64(result0.Height) == le64at(d.data, old(d.pos)) && uint64(result0.Round) == le64at(d.data, old(d.pos) + 8) && limbsAt(d.data, old(d.pos) + 16, result0.Sender[0], result0.Sender[1], result0.Sender[2], result0.Sender[3])
+//@   ensures absent: result1 == nil && d.data[old(d.pos) + 48] == 0 ==> result0.ID == nil && d.pos == old(d.pos) + 49
+//@   ensures present: result1 == nil && d.data[old(d.pos) + 48] != 0 ==> d.data[old(d.pos) + 48] == 1 && result0.ID != nil && fresh(result0.ID) && d.pos == old(d.pos) + 81 && d.pos <= len(d.data) && limbsAt(d.data, old(d.pos) + 49, (*result0.ID)[0], (*result0.ID)[1], (*result0.ID)[2], (*result0.ID)[3])
+//@   ensures complete0: old(d.pos) + 49 <= len(d.data) && d.data[old(d.pos) + 48] == 0 ==> result1 == nil
+//@   ensures complete1: old(d.pos) + 81 <= len(d.data) && d.data[old(d.pos) + 48] == 1 ==> result1 == nil
+//@   ensures wf: wfDecoder(d)
+
+// Timeout payload: step (1), height (8), round (8).
+//@ func decodeTimeoutRecord
+//@   props C14
+//@   arith int
+//@   requires decoder != nil && wfDecoder(decoder)
+//@   modifies decoder.pos
+//@   ensures ok: result1 == nil ==> result0 != nil && fresh(result0) && old(decoder.pos) + 17 <= len(decoder.data) && decoder.pos == old(decoder.pos) + 17
+//@   ensures fields: result1 == nil ==> uint8(result0.Step) == decoder.data[old(decoder.pos)] && uint64(result0.Height) == le64at(decoder.data, old(decoder.pos) + 1) && uint64(result0.Round) == le64at(decoder.data, old(decoder.pos) + 9)
+//@   ensures complete: old(decoder.pos) + 17 <= len(decoder.data) ==> result1 == nil
+//@   ensures wf: wfDecoder(decoder)
+
+// ---- values go through reflection: assumed contracts ---------------------------------------------
+// The proposal value type V is any type whose representation is [4]uint64 (every instantiation
+// in the repository); valueLimb(v, k) stands for its k-th limb.
+//@ ghost func valueLimb(v _, k int) uint64
+//@ func appendValue
+//@   trusted
+//@   appends payload 32 when result1 == nil
+//@   ensures limbs: result1 == nil ==> limbsAt(result0, len(payload), valueLimb(*value, 0), valueLimb(*value, 1), valueLimb(*value, 2), valueLimb(*value, 3))
+//@ func readValue
+//@   trusted
+//@   requires d != nil && wfDecoder(d)
+//@   modifies d.pos
+//@   ensures ok: result1 == nil ==> old(d.pos) + 32 <= len(d.data) && d.pos == old(d.pos) + 32 && limbsAt(d.data, old(d.pos), valueLimb(result0, 0), valueLimb(result0, 1), valueLimb(result0, 2), valueLimb(result0, 3))
+//@   ensures wf: wfDecoder(d)
+
+// ---- one record: kind byte, then a fixed layout per kind ------------------------------------------
+//   prune:     [2][height:8]                                                        9 bytes
+//   start:     [1][1][height:8]                                                    10 bytes
+//   proposal:  [1][2][header:48][validRound:8][0]   or  ...[1][value:32]      59 / 91 bytes
+//   prevote:   [1][3][header:48][0]                 or  ...[1][id:32]         51 / 83 bytes
+//   precommit: [1][4][header:48][0]                 or  ...[1][id:32]         51 / 83 bytes
+//   timeout:   [1][5][step:1][height:8][round:8]                                   19 bytes
+//@ func appendWALRecordPayload
+//@   props C14
+//@   arith int
+//@   coretypes
+//@   requires record != nil
+//@   requires present: record.Kind == 1 ==> (record.EntryKind == 2 ==> record.ProposalEntry != nil) && (record.EntryKind == 3 ==> record.PrevoteEntry != nil) && (record.EntryKind == 4 ==> record.PrecommitEntry != nil) && (record.EntryKind == 5 ==> record.TimeoutEntry != nil)
+//@   appends payload ite(record.Kind == 2, 9, ite(record.EntryKind == 1, 10, ite(record.EntryKind == 5, 19, ite(record.EntryKind == 3, ite(record.PrevoteEntry.ID == nil, 51, 83), ite(record.EntryKind == 4, ite(record.PrecommitEntry.ID == nil, 51, 83), ite(record.ProposalEntry.Value == nil, 59, 91)))))) when result1 == nil
+//@   ensures kinds: result1 == nil ==> (record.Kind == 2 || (record.Kind == 1 && 1 <= record.EntryKind && record.EntryKind <= 5))
+//@   ensures total: (record.Kind == 2 || (record.Kind == 1 && (record.EntryKind == 1 || record.EntryKind == 3 || record.EntryKind == 4 || record.EntryKind == 5))) ==> result1 == nil
+//@   ensures kind: result1 == nil ==> result0[len(payload)] == uint8(record.Kind)
+//@   ensures entrykind: result1 == nil && record.Kind == 1 ==> result0[len(payload) + 1] == uint8(record.EntryKind)
+//@   ensures prune: result1 == nil && record.Kind == 2 ==> le64at(result0, len(payload) + 1) == uint64(record.Height)
+//@   ensures start: result1 == nil && record.Kind == 1 && record.EntryKind == 1 ==> le64at(result0, len(payload) + 2) == uint64(record.StartHeight)
+//@   ensures timeout: result1 == nil && record.Kind == 1 && record.EntryKind == 5 ==> result0[len(payload) + 2] == uint8(record.TimeoutEntry.Step) && le64at(result0, len(payload) + 3) == uint64(record.TimeoutEntry.Height) && le64at(result0, len(payload) + 11) == uint64(record.TimeoutEntry.Round)
+//@   ensures prevote: result1 == nil && record.Kind == 1 && record.EntryKind == 3 ==> le64at(result0, len(payload) + 2) == uint64(record.PrevoteEntry.Height) && le64at(result0, len(payload) + 10) == uint64(record.PrevoteEntry.Round) && limbsAt(result0, len(payload) + 18, record.PrevoteEntry.Sender[0], record.PrevoteEntry.Sender[1], record.PrevoteEntry.Sender[2], record.PrevoteEntry.Sender[3]) && result0[len(payload) + 50] == ite(record.PrevoteEntry.ID == nil, 0, 1)
+//@   ensures prevote_id: result1 == nil && record.Kind == 1 && record.EntryKind == 3 && record.PrevoteEntry.ID != nil ==> limbsAt(result0, len(payload) + 51, (*record.PrevoteEntry.ID)[0], (*record.PrevoteEntry.ID)[1], (*record.PrevoteEntry.ID)[2], (*record.PrevoteEntry.ID)[3])
+//@   ensures precommit: result1 == nil && record.Kind == 1 && record.EntryKind == 4 ==> le64at(result0, len(payload) + 2) == uint64(record.PrecommitEntry.Height) && le64at(result0, len(payload) + 10) == uint64(record.PrecommitEntry.Round) && limbsAt(result0, len(payload) + 18, record.PrecommitEntry.Sender[0], record.PrecommitEntry.Sender[1], record.PrecommitEntry.Sender[2], record.PrecommitEntry.Sender[3]) && result0[len(payload) + 50] == ite(record.PrecommitEntry.ID == nil, 0, 1)
+//@   ensures precommit_id: result1 == nil && record.Kind == 1 && record.EntryKind == 4 && record.PrecommitEntry.ID != nil ==> limbsAt(result0, len(payload) + 51, (*record.PrecommitEntry.ID)[0], (*record.PrecommitEntry.ID)[1], (*record.PrecommitEntry.ID)[2], (*record.PrecommitEntry.ID)[3])
+//@   ensures proposal: result1 == nil && record.Kind == 1 && record.EntryKind == 2 ==> le64at(result0, len(payload) + 2) == uint64(record.ProposalEntry.Height) && le64at(result0, len(payload) + 10) == uint64(record.ProposalEntry.Round)
+//@   ensures proposal_sender: result1 == nil && record.Kind == 1 && record.EntryKind == 2 ==> limbsAt(result0, len(payload) + 18, record.ProposalEntry.Sender[0], record.ProposalEntry.Sender[1], record.ProposalEntry.Sender[2], record.ProposalEntry.Sender[3])
+//@   ensures proposal_round: result1 == nil && record.Kind == 1 && record.EntryKind == 2 ==> le64at(result0, len(payload) + 50) == uint64(record.ProposalEntry.ValidRound) && result0[len(payload) + 58] == ite(record.ProposalEntry.Value == nil, 0, 1)
+//@   ensures proposal_value: result1 == nil && record.Kind == 1 && record.EntryKind == 2 && record.ProposalEntry.Value != nil ==> limbsAt(result0, len(payload) + 59, valueLimb(*record.ProposalEntry.Value, 0), valueLimb(*record.ProposalEntry.Value, 1), valueLimb(*record.ProposalEntry.Value, 2), valueLimb(*record.ProposalEntry.Value, 3))
